@@ -17,8 +17,20 @@ from .snakes import compute_snakes_multilevel, compute_diff_from_snakes
 __all__ = ["diff"]
 
 
+def _json_number_type(x):
+    return type(x) if isinstance(x, (bool, int, float)) else None
+
+
+def compare_strict(x, y):
+    """Equality that also tells booleans, integers and floats apart.
+
+    In Python True == 1 == 1.0, but these are different JSON values.
+    """
+    return x == y and _json_number_type(x) is _json_number_type(y)
+
+
 def default_predicates():
-    return defaultdict2(lambda: (operator.__eq__,), {})
+    return defaultdict2(lambda: (compare_strict,), {})
 
 
 def default_differs():
@@ -229,7 +241,7 @@ def diff_dicts(a, b, path="", config=None):
                 raise RuntimeError(
                     "Found predicate(s) for path {} pointing to dict entry.".format(
                         path or '/'))
-            if avalue != bvalue:
+            if not compare_strict(avalue, bvalue):
                 di.replace(key, bvalue)
 
     for key in sorted(bkeys - akeys):
